@@ -56,7 +56,7 @@ def _history_of(binary, universe, idx, seed, args):
 def c17(prop, tier, seed, known):
     q = tier == "quick"
     us = UV.by_pack("c17")
-    runs = 3000 if q else 40000
+    runs = 12000 if q else 100000
     args = ["--prop", "17", "--faults", "1", "--digests", "1", "--nops", "24" if q else "40"]
     kargs = D.known_args_for(prop, known)
     digests = {}
@@ -452,7 +452,7 @@ def c08(prop, tier, seed, known):
     import cxgen
     from concurrent.futures import ThreadPoolExecutor
     q = tier == "quick"
-    batches = 10 if q else 300
+    batches = 16 if q else 300
     per = 40
     nops = 24 if q else 36
     comps = ["g++", "clang++"] if q else ["g++", "clang++", "g++-2b"]
